@@ -63,7 +63,15 @@ class _None(Ty):
         return z3.IntSort()
 
 
-Int, Bool, Str, Real, NoneT = _Int(), _Bool(), _Str(), _Real(), _None()
+class _Opaque(Ty):
+    """Parameter of a trusted stub that accepts any value and does not depend on it."""
+    key = 'opaque'
+
+    def sort(self):
+        return z3.IntSort()
+
+
+Int, Bool, Str, Real, NoneT, Opaque = _Int(), _Bool(), _Str(), _Real(), _None(), _Opaque()
 
 
 class Ref(Ty):
@@ -274,7 +282,7 @@ def parse_type(s, classes=None):
     if s.endswith('?'):
         opt = True
         s = s[:-1].strip()
-    base = {'int': Int, 'str': Str, 'bool': Bool, 'real': Real, 'float': Real, 'none': NoneT}
+    base = {'int': Int, 'str': Str, 'bool': Bool, 'real': Real, 'float': Real, 'none': NoneT, 'opaque': Opaque}
     if s in base:
         t = base[s]
     elif '[' in s:
